@@ -1241,7 +1241,10 @@ def find_commit_bitmaps(
         if not remaining:
             break
 
-        pack_bitmap = pack.bitmap
+        try:
+            pack_bitmap = pack.bitmap
+        except FileNotFoundError:
+            pack_bitmap = None
         if not pack_bitmap:
             # No bitmap for this pack
             continue
